@@ -289,6 +289,12 @@ def hdl21_naming_encoder(obj: Any) -> Any:
         # Mix the qualified class names/paths with the parameters
         return module_qualname(obj.module) + _unique_name(obj.params)
 
+    if isinstance(obj, (set, frozenset)):
+        # Sets iterate in an order which depends on their elements' hashes, and for strings on the process's hash seed.
+        # Names must not. Encode the elements in a fixed order instead.
+        items = [json.dumps(item, default=hdl21_naming_encoder) for item in obj]
+        return sorted(items)
+
     # Dataclasses also require custom handling, as the default encoder deep-copies them,
     # often invoking methods not supported on several Hdl21 types.
     # Convert to (shallow) dictionaries instead.
